@@ -108,19 +108,32 @@ def schedule_shard(params, rec):
     burners = []
     actual_layer = None
     try:
-        for wi in range(params["nwork"]):
+        # every workload index (= kernel kind) runs its main shape and then a cheap few-segments
+        # pass, so that each parallel kernel meets "one or two iterations per worker thread" on
+        # both threading layers in every run; the main shapes rotate with the seed
+        li = 0 if layer == "workqueue" else 1
+        mains = ["many-tiny", "repeated-starts", "few-big", "plan", "many-tiny", "repeated-starts"]
+        pairs = []
+        for wi_ in range(params["nwork"]):
+            pairs.append((wi_, mains[(wi_ * 5 + li * 3 + int(params["seed"])) % len(mains)]))
+            pairs.append((wi_, "few-segments"))
+        for wi, shape in pairs:
             if time.time() - t0 > params["budget_s"]:
                 rec.note(f"time budget reached after {wi} workloads")
                 break
-            shape = str(rng.choice(["many-tiny", "many-tiny", "few-big", "plan"]))
             # every quick run covers all six parallel kernels (order class x auto/cross)
             kind = [(-1, False), (-1, True), (0, False), (0, True), (1, False), (2, True),
                     (2, False), (1, True)][wi % 8]
             order, cross = kind
             rec.distinct("kernels_stressed", f"order{order}/{'csd' if cross else 'auto'}")
-            if (wi + (0 if layer == "workqueue" else 1)) % 2 == 0 and rng.random() < 0.8:
-                shape = "repeated-starts"
-            if shape == "repeated-starts":
+            if shape == "few-segments":
+                # only a handful of segments, densely overlapped: every worker thread owns one or
+                # two iterations, and the second thread's first segment starts a few samples in
+                L = int(rng.choice([64, 256, 1000]))
+                olap = float(rng.choice([0.9, 0.95, 0.97, 0.985]))
+                N = L + int(max(1, round((1 - olap) * L)) * int(rng.integers(1, 8)))
+                rec.count("schedule_workloads_with_few_segments")
+            elif shape == "repeated-starts":
                 # segment shift below one sample: runs of identical start indices, so that
                 # neighbouring iterations (and worker-block boundaries) see the same segment
                 L = int(rng.choice([8, 16]))
